@@ -69,7 +69,8 @@ def run(chk):
         sph = rng.random() < 0.35
         mode = rng.choice(["random", "random", "affine", "zero", "corner"])
         if sph:
-            cx, cy = rng.choice([(g.num(-150, 150, 1), g.num(-60, 60, 1)), (0.0, 0.0)])
+            cx, cy = rng.choice([(g.num(-150, 150, 1), g.num(-60, 60, 1)), (0.0, 0.0),
+                                 (rng.choice([-1, 1]) * g.num(172, 188, 1), g.num(-50, 50, 1))])    # the last: across the date line
             poly = g.polygon(cx, cy, g.num(3, 20, 1))
         else:
             cx, cy = rng.choice([(g.num(-3e5, 3e5, 0), g.num(-3e5, 3e5, 0)), (0.0, 0.0)])
@@ -105,6 +106,9 @@ def run(chk):
              "composition models": [{"model": "uniform", "compositions": [0], "fractions": [1.0]}]}
         if rng.random() < 0.3:
             f["min depth"] = [[0.0], [float(round(rng.uniform(1e3, 5e4))), [g.interior_point(poly)]]]
+        elif rng.random() < 0.3:
+            # one entry only, with points: the corners keep the documented default (0 for a min depth)
+            f["min depth"] = [[float(round(rng.uniform(1e3, 5e4))), [g.interior_point(poly) for _ in range(rng.randint(1, 2))]]]
         if rng.random() < 0.4:
             f["temperature models"] = [{"model": "linear", "max depth": g.depth_values(poly, 8e4, 3e5), "top temperature": 300.0, "bottom temperature": 1500.0}]
         wj = {"version": "1.1", "features": [f]}
@@ -116,6 +120,14 @@ def run(chk):
         surfaces = fetch_surfaces(path)
         if surfaces is None:
             viol.append(("a valid file with depths given at points is rejected", {"world": wj}))
+            continue
+        ignored = False
+        for key, e_json in (("features/0/max_depth", f["max depth"]), ("features/0/min_depth", f.get("min depth"))):
+            if isinstance(e_json, list) and any(len(e) == 2 for e in e_json) and key in surfaces and surfaces[key]["const"]:
+                viol.append(("the points listed for the %s of a feature are ignored: the surface is constant (%g)" % (key.split("/")[-1], surfaces[key]["min"]),
+                             {"kind": "world", "world": wj, "surface": key, "probe_line": "surfaces 0"}))
+                ignored = True
+        if ignored:
             continue
         s = surfaces["features/0/max_depth"]
         ent = f["max depth"]
@@ -136,6 +148,9 @@ def run(chk):
         for _ in range(12):
             ip = g.interior_point(poly)
             qs.append(conv(sph, ip) if sph else (float(ip[0]), float(ip[1])))
+        if sph:
+            # the same points written on the other 360-degree branch of the longitude
+            qs += [((q[0] - 2 * PI) if q[0] > 0 else (q[0] + 2 * PI), q[1]) for q in qs[-12:]]
         for q in qs:
             i = cs.raw(surf_line(sph, s, q), surf_ml(sph, s, q), {"kind": "surf", "spherical": sph, "point": q, "world": wj})
             plan.append(("surf", i, s, q, wj, affine, sph))
@@ -215,6 +230,10 @@ def run(chk):
             if affine:
                 A, B, C = affine
                 qd = (q[0] * 180.0 / PI, q[1] * 180.0 / PI) if sph else q
+                if sph:
+                    # a query written on the other 360-degree branch is the same point: evaluate the affine data on the polygon's branch
+                    lon0 = wj["features"][0]["coordinates"][0][0]
+                    qd = (qd[0] - 360.0 * round((qd[0] - lon0) / 360.0), qd[1])
                 exp = A * qd[0] + B * qd[1] + C
                 if abs(v[0] - exp) > 1e-6 * max(1.0, abs(exp)):
                     viol.append(("affine nodal data are not reproduced: %.9g instead of %.9g" % (v[0], exp), cs.describe(i)))
